@@ -168,6 +168,20 @@ func (w *worker) runInstance(req *InstanceReq) (res *InstanceResult) {
 	s.reset()
 	s.stats = SolverStats{}
 	x := &Explorer{solver: s, inst: res, symFns: map[string]bool{}}
+	if fs, ok := w.solvers["cvc5"]; ok && req.Solver != "cvc5" {
+		fs.reset()
+		fs.stats = SolverStats{}
+		x.fpSolver = fs
+	}
+	defer func() {
+		if x.fpSolver != nil {
+			w.solvers["cvc5"] = x.fpSolver
+			res.Solver.Sat += x.fpSolver.stats.Sat
+			res.Solver.Unsat += x.fpSolver.stats.Unsat
+			res.Solver.Unknown += x.fpSolver.stats.Unknown
+			res.Solver.Time += x.fpSolver.stats.Time
+		}
+	}()
 	x.pending = [][]decision{req.Script}
 	if req.Prefix != nil {
 		x.pending = [][]decision{req.Prefix}
